@@ -121,10 +121,10 @@ def check_cases(cases: list[dict], rep: Report, known: dict) -> None:
 
 
 def k1_explains(c: dict, r: str, p) -> bool:
-    with common.k1_disabled():
+    with common.k1_disabled() as k1:
         out = routes.run_route(r, wire.build_raw(c["e"]), c["x"] if r not in routes.DERIV_ROUTES else None, p,
                                warm=[wire.build_point(q) for q in c.get("warm", [])])
-    return out[0] == "ok"
+    return out[0] == "ok" and k1.hits > 0
 
 
 def corpus() -> list[dict]:
